@@ -37,6 +37,7 @@ from magicbot import default_state as sm_default_state, state as sm_state  # noq
 DS = wpilib.simulation.DriverStationSim
 logging.disable(logging.CRITICAL)
 
+MAX_EVENTS = 3000
 MISSING = -999
 NOTINT = -998
 
@@ -57,6 +58,7 @@ class Rec:
     waiting = threading.Event()
     go = threading.Event()
     t0 = 0
+    overflow = False
 
 
 _real_wait = hal.waitForNotifierAlarm
@@ -102,6 +104,12 @@ def snapshot():
 
 def HOOK(k, o, key="", arg=None):
     """Called from inside every user callback."""
+    if len(Rec.log) > MAX_EVENTS:
+        # the robot thread is spinning without ever blocking in NotifierDelay.wait(): stop recording, let the
+        # driver notice (it reports a 'hang' observation) and keep the thread from eating memory
+        Rec.overflow = True
+        time.sleep(0.05)
+        return 0
     dec = Rec.policy.decide(k, o, key)
     vals, inj = snapshot()
     ev = {"e": "cb", "k": k, "o": o, "key": key, "raise": bool(dec["raise"]), "w": dec["w"],
@@ -495,6 +503,7 @@ def apply_env(e):
 
 def run_history(tid, layout, fms, policy_factory, scratch):
     Rec.log = []
+    Rec.overflow = False
     Rec.layout = layout
     Rec.waiting.clear()
     Rec.go.clear()
@@ -532,7 +541,7 @@ def run_history(tid, layout, fms, policy_factory, scratch):
     while True:
         t0 = time.time()
         while not Rec.waiting.is_set() and t.is_alive():
-            if time.time() - t0 > 30:
+            if Rec.overflow or time.time() - t0 > 30:
                 raise Hang("robot thread neither waiting nor finished")
             time.sleep(0.00005)
         if not Rec.waiting.is_set():
@@ -577,6 +586,14 @@ def run_history(tid, layout, fms, policy_factory, scratch):
     return out
 
 
+def hang_trace(tid, layout, fms):
+    """the robot thread neither blocked in NotifierDelay.wait() nor finished: an observation, not a harness failure.
+    The events recorded up to a bound, then 'hang'."""
+    evs = list(Rec.log[:400])
+    return {"id": tid, "shape": layout, "fms": bool(fms), "hang": True,
+            "steps": [{"in": e} for e in evs] + [{"in": {"e": "hang"}}]}
+
+
 def main():
     ap = argparse.ArgumentParser()
     ap.add_argument("--out", required=True)
@@ -586,23 +603,40 @@ def main():
     ap.add_argument("--scripts")
     a = ap.parse_args()
     scratch = os.path.join(os.getcwd(), "autopkg")
+    hung = None
     hs.pauseTiming()
     hs.restartTiming()
     traces = []
     if a.scripts:
         for j in json.load(open(a.scripts)):
-            traces.append(run_history(j["id"], j["shape"], j["fms"],
-                                      lambda layout, fms, j=j: ScriptPolicy(j["events"]), scratch))
+            try:
+                traces.append(run_history(j["id"], j["shape"], j["fms"],
+                                          lambda layout, fms, j=j: ScriptPolicy(j["events"]), scratch))
+            except Hang:
+                hung = hang_trace(j["id"], j["shape"], j["fms"])
+                break
     else:
         rng = random.Random(a.seed)
         for i in range(a.n):
             tid = a.first_id + i
             layout = gen_layout(rng, tid)
             fms = rng.random() < 0.6
-            traces.append(run_history(tid, layout, fms, lambda layout, fms: RandomPolicy(rng, layout, fms), scratch))
+            try:
+                traces.append(run_history(tid, layout, fms, lambda layout, fms: RandomPolicy(rng, layout, fms), scratch))
+            except Hang:
+                hung = hang_trace(tid, layout, fms)
+                break
+    if a.scripts and hung is None:
+        pass
+    if hung is not None:
+        traces.append(hung)
     with open(a.out, "w") as f:
         json.dump(traces, f)
     shutil.rmtree(scratch, ignore_errors=True)
+    if hung is not None:
+        # a robot thread that never blocks cannot be stopped: leave the process the hard way
+        sys.stdout.flush()
+        os._exit(0)
 
 
 if __name__ == "__main__":
